@@ -40,6 +40,8 @@ type Engine struct {
 	loadErrs  []string
 	effFree   []string
 	guarded   map[string]string // pkgpath.Type.field -> mutex field name
+	cglob     map[*ssa.Global]cglobInfo
+	cglobNames []string
 }
 
 func newEngine(repo string) *Engine {
@@ -361,7 +363,7 @@ func (e *Engine) resolveReads(f *SpecFn) {
 			parts := strings.Split(r, ":")
 			var srt string
 			switch {
-			case parts[0] == "MD" && len(parts) == 2:
+			case parts[0] == "MD" && len(parts) == 3:
 				srt = "(Array Int (Array " + parts[1] + " Bool))"
 			case parts[0] == "MV" && len(parts) == 3:
 				srt = "(Array Int (Array " + parts[1] + " " + parts[2] + "))"
@@ -424,6 +426,89 @@ func (e *Engine) effectFree(key string) bool {
 		}
 	}
 	return false
+}
+
+// constGlobal reports whether a package-level variable is written only by its package initializer; such variables
+// are modelled as constants. nonNil is set when the initializer stores the result of errors.New / fmt.Errorf.
+func (e *Engine) constGlobal(g *ssa.Global) (name string, nonNil, ok bool) {
+	if r, seen := e.cglob[g]; seen {
+		return r.name, r.nonNil, r.ok
+	}
+	res := cglobInfo{name: "gconst_" + sanitize(g.Pkg.Pkg.Path()+"_"+g.Name()), ok: true}
+	stores := 0
+	for _, m := range g.Pkg.Members {
+		fn, isFn := m.(*ssa.Function)
+		if !isFn {
+			continue
+		}
+		var visit func(f *ssa.Function)
+		visit = func(f *ssa.Function) {
+			for _, b := range f.Blocks {
+				for _, in := range b.Instrs {
+					// any use of the global's address other than a load or an init-time store makes it non-constant
+					for _, op := range in.Operands(nil) {
+						if *op != ssa.Value(g) {
+							continue
+						}
+						switch x := in.(type) {
+						case *ssa.UnOp:
+						case *ssa.Store:
+							if x.Addr == ssa.Value(g) && f.Name() == "init" {
+								stores++
+								if c, isCall := x.Val.(*ssa.Call); isCall {
+									if sc := c.Call.StaticCallee(); sc != nil && (sc.String() == "errors.New" || sc.String() == "fmt.Errorf") {
+										res.nonNil = true
+									}
+								}
+							} else {
+								res.ok = false
+							}
+						default:
+							res.ok = false
+						}
+					}
+				}
+			}
+			for _, af := range f.AnonFuncs {
+				visit(af)
+			}
+		}
+		visit(fn)
+	}
+	// methods of named types
+	for _, m := range g.Pkg.Members {
+		if tn, isT := m.(*ssa.Type); isT {
+			for _, tt := range []types.Type{tn.Type(), types.NewPointer(tn.Type())} {
+				ms := e.prog.MethodSets.MethodSet(tt)
+				for i := 0; i < ms.Len(); i++ {
+					f := e.prog.MethodValue(ms.At(i))
+					if f == nil {
+						continue
+					}
+					for _, b := range f.Blocks {
+						for _, in := range b.Instrs {
+							if st, isStore := in.(*ssa.Store); isStore && st.Addr == ssa.Value(g) {
+								res.ok = false
+							}
+						}
+					}
+				}
+			}
+		}
+	}
+	if stores > 1 {
+		res.ok = false
+	}
+	if e.cglob == nil {
+		e.cglob = map[*ssa.Global]cglobInfo{}
+	}
+	e.cglob[g] = res
+	return res.name, res.nonNil, res.ok
+}
+
+type cglobInfo struct {
+	name       string
+	nonNil, ok bool
 }
 
 // ---- spec functions and axioms ----
@@ -692,6 +777,35 @@ func (e *Engine) verifyFn(fn *ssa.Function, con *Contract) *VC {
 		a.params[fv.Name()] = v
 		a.paramFacts(st, v, true)
 	}
+	// "option implements <iface key>": the implementation is verified against the interface method's contract,
+	// with the receiver seen through the interface (model fields are indexed by the interface payload).
+	var ifaceCon *Contract
+	if ik := con.Opts["implements"]; ik != "" {
+		if !strings.Contains(ik, "/") && fn.Pkg != nil {
+			ik = fn.Pkg.Pkg.Path() + "." + ik
+		}
+		ifaceCon = e.contracts[ik]
+		if ifaceCon == nil {
+			vc.oblige(short+"/contract-error", "pre", con.Props, con.File, "true", "false", "contract error: interface contract "+ik+" not found")
+		} else if len(fn.Params) > 0 {
+			it := e.ifaceTypeOf(ik, fn)
+			recv := a.regs[fn.Params[0]]
+			iv := a.makeIface(st, recv, it)
+			names := ifaceCon.Params
+			a.ifaceParams = map[string]Val{}
+			for i := range fn.Params {
+				if i < len(names) {
+					if i == 0 {
+						a.ifaceParams[names[0]] = iv
+					} else {
+						a.ifaceParams[names[i]] = a.regs[fn.Params[i]]
+					}
+				}
+			}
+			a.params["self"] = iv
+		}
+	}
+	a.ifaceCon = ifaceCon
 	a.analyzeCFG()
 	// requires
 	// no lock is held when a verified function is entered (sequential contract of one call)
@@ -703,8 +817,12 @@ func (e *Engine) verifyFn(fn *ssa.Function, con *Contract) *VC {
 	}
 	env := a.specEnv(st)
 	env.old = st
-	for _, c := range append(append([]*Clause(nil), con.Requires...), con.Represents...) {
-		s, err := env.evalBool(c.Expr)
+	allReq := append(append([]*Clause(nil), con.Requires...), con.Represents...)
+	if ifaceCon != nil {
+		allReq = append(allReq, ifaceCon.Requires...)
+	}
+	for _, c := range allReq {
+		s, err := a.clauseEnv(env, c).evalBool(c.Expr)
 		if err != nil {
 			vc.oblige(short+"/contract-error", "pre", con.Props, c.Line, "true", "false", "contract error: "+err.Error()+" in: "+c.Text)
 			continue
@@ -755,6 +873,19 @@ func (a *Act) paramFacts(st *State, v Val, nonNil bool) {
 	case *types.Interface:
 		vc.assume("true", "(<= (base (ival "+v.S+")) "+st.top+")")
 	}
+}
+
+// ifaceTypeOf finds the interface type named by an interface-method contract key (pkgpath.Iface.Method).
+func (e *Engine) ifaceTypeOf(key string, fn *ssa.Function) types.Type {
+	i := strings.LastIndex(key, ".")
+	tn := key[:i]
+	j := strings.LastIndex(tn, ".")
+	if p := e.pkgByPath[tn[:j]]; p != nil {
+		if obj, ok := p.Scope().Lookup(tn[j+1:]).(*types.TypeName); ok {
+			return obj.Type()
+		}
+	}
+	return types.NewInterfaceType(nil, nil)
 }
 
 // verifyLemma produces the VC of a lemma (goal over spec functions).
